@@ -33,7 +33,7 @@ def run(ck, prog, ctx):
                          "%s can panic: %s is reachable from TryFrom<&str> for HpoTermId (e.g. a multi-byte character across the offset)" % (b.short, f["construct"]),
                          where=b.where(f["line"]))
         for u in undecided:
-            ck.undecided("PANIC", "%s/%s" % (u["body"].short, u["construct"]), "std callee with no summary: %s" % u["construct"], where=u["body"].where(u["line"]))
+            ck.undecided("PANIC", "%s/%s" % (u["body"].short, u["construct"]), ("std callee with no summary: %s" % u["construct"]) if not u["construct"].startswith("assert:") else u["construct"], where=u["body"].where(u["line"]))
         if not findings:
             ck.ob("PANIC", "entry/" + tf.short, True, "%d reachable bodies, %d calls, %d asserts: no panicking construct" % (stats["reachable_bodies"], stats["calls"], stats["asserts"]), where=tf.where())
     ck.floor("PANIC", "entry points", 1 if tf else 0, 1)
@@ -163,9 +163,94 @@ def run(ck, prog, ctx):
                 if any(st.k == "assign" and st.rv["k"] == "bin" and st.rv["op"] in ("Shl", "Shr", "ShlUnchecked", "ShrUnchecked") for _, st in fb_.stmts()):
                     return [], x
         return [], None
+    def shift_terms(b_):
+        """straight-line assembly of the number from the bytes of the parameter: {byte index: shift}, or None when the returned value is not a
+        plain or-combination of shifted bytes of parameter 1 (loops, folds, helpers: not read here)"""
+        if b_.natural_loops():
+            return None
+        defs = {}
+        for pos, st in b_.stmts():
+            if st.k == "assign" and st.place.is_local():
+                defs.setdefault(st.place.local, []).append(("assign", st))
+        for bi, t in b_.calls():
+            if t.dest is not None and t.dest.is_local():
+                defs.setdefault(t.dest.local, []).append(("call", t))
+
+        def const_index(e):
+            if e[0] == "cidx":
+                return int(e[1])
+            if e[0] == "idx":
+                dd = defs.get(e[1] if isinstance(e[1], int) else -1, [])
+                if len(dd) == 1 and dd[0][0] == "assign" and dd[0][1].rv["k"] == "use" and dd[0][1].rv["op"].int_value() is not None:
+                    return dd[0][1].rv["op"].int_value()
+            return None
+
+        def ev_place(pl, depth):
+            es = [e for e in pl.fields() if e != "*"]
+            es = [("cidx", const_index(e)) if e[0] in ("cidx", "idx") and const_index(e) is not None else e for e in es]
+            if pl.local == 1 and len(es) == 1 and es[0][0] == "cidx":
+                return {int(es[0][1]): 0}
+            ds = defs.get(pl.local, [])
+            if len(ds) != 1 or depth > 40:
+                return None
+            k_, d_ = ds[0]
+            if es:
+                # element i of `bytes.map(widen)` / of a copy of the parameter
+                if len(es) == 1 and es[0][0] == "cidx":
+                    src = None
+                    if k_ == "call" and d_.callee.method == "map" and "[u8;" in (d_.callee.def_args or d_.callee.name or "").replace(" ", "").replace("[u8;4]", "[u8;4]") and d_.args and d_.args[0].place is not None:
+                        src = d_.args[0].place
+                    elif k_ == "assign" and d_.rv["k"] == "use" and d_.rv["op"].place is not None:
+                        src = d_.rv["op"].place
+                    if src is not None and src.is_local():
+                        whole = src.local
+                        seen_ = set()
+                        while whole != 1 and whole not in seen_:
+                            seen_.add(whole)
+                            dd = defs.get(whole, [])
+                            if len(dd) == 1 and dd[0][0] == "assign" and dd[0][1].rv["k"] == "use" and dd[0][1].rv["op"].place is not None and dd[0][1].rv["op"].place.is_local():
+                                whole = dd[0][1].rv["op"].place.local
+                            else:
+                                break
+                        if whole == 1:
+                            return {int(es[0][1]): 0}
+                return None
+            if k_ == "call":
+                if d_.callee.method in ("from", "into") and len(d_.args) == 1:
+                    return ev(d_.args[0], depth + 1)
+                return None
+            rv = d_.rv
+            if rv["k"] in ("use", "cast"):
+                return ev(rv["op"], depth + 1)
+            if rv["k"] == "bin":
+                op = rv["op"].replace("Unchecked", "").replace("WithOverflow", "")
+                if op == "Shl" and rv["r"].int_value() is not None:
+                    l_ = ev(rv["l"], depth + 1)
+                    return None if l_ is None else {i: sh + rv["r"].int_value() for i, sh in l_.items()}
+                if op in ("BitOr", "Add", "BitXor"):
+                    l_, r_ = ev(rv["l"], depth + 1), ev(rv["r"], depth + 1)
+                    if l_ is None or r_ is None or set(l_) & set(r_):
+                        return None
+                    return {**l_, **r_}
+            return None
+
+        def ev(op, depth=0):
+            if op.kind == "const" or op.place is None:
+                return None
+            return ev_place(op.place, depth)
+        for pos, st in b_.stmts():
+            if st.k == "assign" and st.place.local == 0 and st.rv["k"] == "agg" and len(st.rv.get("ops") or []) == 1:
+                return ev(st.rv["ops"][0])
+            if st.k == "assign" and st.place.local == 0 and st.rv["k"] == "use":
+                return ev(st.rv["op"])
+        return None
     if ck.anchor("TABLE", "impl From<[u8;4]> for HpoTermId", fb):
         fams, hand = byte_order_of(fb)
-        if not fams and hand is not None:
+        terms_ = shift_terms(fb) if not fams and hand is not None and hand.id == fb.id else None
+        if terms_ is not None:
+            # hand-written, straight-line: byte i of the input must land at bit 8 * (3 - i)
+            ck.ob("TABLE", "bytes/from", terms_ == {0: 24, 1: 16, 2: 8, 3: 0}, "From<[u8;4]> assembles the number from input byte -> left shift %s (big-endian is {0: 24, 1: 16, 2: 8, 3: 0})" % dict(sorted(terms_.items())), where=fb.where())
+        elif not fams and hand is not None:
             ck.undecided("TABLE", "bytes/from", "From<[u8;4]> assembles the number with hand-written shifts (in %s): its byte order is not decided by this rule" % hand.short, where=fb.where())
         else:
             ck.ob("TABLE", "bytes/from", fams == ["be"], "From<[u8;4]> converts with %s (expected exactly one big-endian conversion)" % (fams or "no endian conversion"), where=fb.where())
